@@ -156,9 +156,9 @@ def selftest():
 
     # oracle on hand-made leaves
     ns = types.SimpleNamespace
-    init_back = lambda s1, s2: ns(value=s1 * 7 + s2 - 13)   # noqa: E731
-    ping_back = lambda s1, s2: ns(value=s1 - s2)            # noqa: E731
-    acc_back = lambda v: ns(value=v)                        # noqa: E731
+    init_back = lambda seq1, seq2: ns(value=seq1 * 7 + seq2 - 13)   # noqa: E731
+    ping_back = lambda seq1, seq2: ns(value=seq1 - seq2)            # noqa: E731
+    acc_back = lambda value: ns(value=value)                        # noqa: E731
     good = [("INIT", init_back, ns(value=0, seq1=1, seq2=6)), ("INIT", init_back, ns(value=1756, seq1=252, seq2=5)),
             ("PING", ping_back, ns(value=1756, seq1=2007, seq2=251)), ("PING", ping_back, ns(value=0, seq1=252, seq2=252)),
             ("ACCOUNT_REPLY", acc_back, ns(value=239))]
@@ -264,7 +264,7 @@ def _run_opt(task):
     import sys
     from vlib.runner import REPO
     res = TaskResult()
-    for flag in ("-O", "-OO"):
+    for flag in ("-O", "-OO", "-Werror"):
         r = subprocess.run([sys.executable, "-B", flag, "-c", _OPT_SUB, REPO, str(task["seed"])], capture_output=True, text=True)
         if r.returncode != 0:
             raise HarnessError(f"python {flag} helper failed: {r.stderr[-800:]}")
